@@ -57,6 +57,8 @@ fn chk_err(e: &CheckpointError) -> &'static str {
                 "noFooter"
             } else if m.contains("Data size mismatch") {
                 "size"
+            } else if m.contains("data truncated") {
+                "truncated"
             } else if m.contains("Compression") {
                 "compression"
             } else {
@@ -503,6 +505,57 @@ fn bincode_fixed(out: &mut Out) {
     }
 }
 
+
+/// cause: `CheckpointReader::load` slices `data[48..52]` and `data[52..52+len]` without a bounds check
+const LOAD_PANIC_SIG: &str = "C14:checkpoint:load-without-validate:panics-on-short-image";
+
+/// `CheckpointReader::open` + `load` WITHOUT `validate` (public API; every caller inside /repo validates first)
+fn load_only(data: &[u8]) -> Result<Result<HashMap<String, ReplicatedValue>, CheckpointError>, ()> {
+    catch_unwind(AssertUnwindSafe(|| {
+        let r = CheckpointReader::open(data)?;
+        Ok(r.load()?.state)
+    }))
+    .map_err(|_| ())
+}
+
+/// does `load` bounds-check a short image (1) or panic (0)?  Probed on a header-only image of a real
+/// checkpoint; sent to the model with the `V` op.  The ORACLE on this path is unconditional.
+fn probe_load_checked() -> bool {
+    let img = CheckpointWriter::new(Compression::None).write(HashMap::new(), 1, 1).unwrap();
+    load_only(&img[..48]).is_ok()
+}
+
+/// accessors of the opened segment / checkpoint against the model's reading of the same bytes
+fn segment_accessors(ds: &[ReplicationDelta], img: &[u8], out: &mut Out) {
+    let mut w = SegmentWriter::new(Compression::None);
+    let mut ok = w.is_empty() && w.record_count() == 0;
+    for d in ds {
+        w.write_delta(d).unwrap();
+    }
+    ok = ok && !w.is_empty() && w.record_count() == ds.len() && w.estimated_size() == img.len();
+    if !ok {
+        out.violation("C14:segment:writer-accessors", "SegmentWriter::{is_empty,record_count,estimated_size} disagree with what was written", json!({"records": ds.len(), "image_len": img.len()}));
+    }
+    if let Ok(r) = SegmentReader::open(img) {
+        let (h, f, sg) = (r.header(), r.footer(), r.segment());
+        out.op(
+            "SH".into(),
+            format!("count {} min {} max {} hcrc {} dcrc {} usize {} csize {} total {}", h.record_count, h.min_timestamp, h.max_timestamp, h.header_checksum, f.data_checksum, f.uncompressed_size, f.compressed_size, sg.size_bytes()),
+        );
+        if sg.record_count() != h.record_count || sg.min_timestamp() != h.min_timestamp || sg.max_timestamp() != h.max_timestamp {
+            out.violation("C14:segment:accessors", "Segment accessors disagree with the header", json!({}));
+        }
+        out.count("op:segment-accessors");
+    }
+}
+
+fn checkpoint_accessors(img: &[u8], out: &mut Out) {
+    if let Ok(r) = CheckpointReader::open(img) {
+        out.op("CH".into(), format!("keys {} ts {} last {} compressed {}", r.key_count(), r.timestamp_ms(), r.last_segment_id(), r.is_compressed() as u8));
+        out.count("op:checkpoint-accessors");
+    }
+}
+
 struct Muts {
     cuts: Vec<usize>,
     subs: Vec<(usize, u8)>,
@@ -574,6 +627,36 @@ fn segment_case(ds: &[ReplicationDelta], rng: &mut Rng, out: &mut Out, thorough:
     let r = read_segment(&img);
     out.op(format!("IS {}", hex(&img)), show(&r));
     out.count("roundtrip:segment");
+    segment_accessors(ds, &img, out);
+    // damage that REACHES the deserialiser: one record byte replaced and the data checksum recomputed;
+    // what comes back is compared field by field with the model's bincode decoder (no oracle: whoever
+    // recomputes the checksum can store other data)
+    {
+        let n = img.len();
+        let tries = if thorough { 120 } else { 24 };
+        for _ in 0..tries {
+            let p = 40 + rng.below((n - 64) as u64) as usize;
+            let v = match rng.below(4) { 0 => 0u8, 1 => 0xFF, 2 => img[p] ^ (1 << rng.below(8)), _ => rng.below(256) as u8 };
+            if v == img[p] {
+                continue;
+            }
+            let mut b = img.clone();
+            b[p] = v;
+            let c = crc32fast::hash(&b[40..n - 24]);
+            b[n - 24..n - 20].copy_from_slice(&c.to_le_bytes());
+            let r = read_segment(&b);
+            let imp = match &r {
+                Err(_) => "crash".to_string(),
+                Ok(Err(e)) => format!("err {}", seg_err(e)),
+                Ok(Ok(v)) => std::iter::once(format!("ok {}", v.len())).chain(v.iter().map(show_delta)).collect::<Vec<_>>().join(" | "),
+            };
+            out.count(&format!("damage:segment:record-byte+checksum-recomputed:{}", if imp.starts_with("ok") { "decoded" } else if imp == "crash" { "crash" } else { "rejected" }));
+            if r.is_err() {
+                out.violation("C14:segment:panic:record-byte+checksum-recomputed", "reading a segment with a damaged record (valid checksum) panicked", json!({"segment": hex(&b)}));
+            }
+            out.op(format!("sxf {} {}", p, v), imp);
+        }
+    }
     out.case(&format!("seg {}", orig.join("|")), ds.len() >= 2);
     out.sample(json!({"segment": hex(&img[..img.len().min(200)]), "deltas": orig.len(), "source": source}));
     let same = |v: &Vec<ReplicationDelta>| v.len() == ds.len() && v.iter().zip(&orig).all(|(d, o)| show_delta(d) == *o);
@@ -713,6 +796,85 @@ fn checkpoint_case(ds: &[ReplicationDelta], rng: &mut Rng, out: &mut Out, thorou
     let r = read_checkpoint(&img);
     out.op(format!("IC {}", hex(&img)), show(&r));
     out.count("roundtrip:checkpoint");
+    checkpoint_accessors(&img, out);
+    // the model's bincode decoder on the real payload (checkpoint state, field by field)
+    out.op(format!("BS {}", hex(&payload)), real_de_state(&payload));
+    // load() WITHOUT validate(): every / sampled truncation and a few substitutions
+    {
+        let n = img.len();
+        for l in 0..n {
+            if !(thorough || l < 60 || l + 20 >= n || rng.chance(1, (n / 40).max(1) as u64)) {
+                continue;
+            }
+            let r = load_only(&img[..l]);
+            out.op(format!("cl {}", l), show(&r));
+            out.count("damage:checkpoint:load-without-validate:truncate");
+            match &r {
+                Err(_) => out.violation(
+                    LOAD_PANIC_SIG,
+                    &format!("CheckpointReader::open succeeded on a checkpoint cut to {} of {} bytes and load() panicked instead of returning an error (image ends {})", l, n, if l < 52 { "inside the data-length field" } else { "inside the data section" }),
+                    json!({"checkpoint": hex(&img), "truncate_to": l}),
+                ),
+                // (a cut inside the footer leaves the payload intact: load() does not look at the footer and
+                // returns the SAME state — not "different data")
+                Ok(Ok(st)) => {
+                    if show_state(st) != orig {
+                        out.violation("C14:checkpoint:load-without-validate:truncate:decoded-different", "load() decoded a truncated checkpoint into different data", json!({"checkpoint": hex(&img), "truncate_to": l}))
+                    } else {
+                        out.count("load-without-validate:cut-inside-the-footer:same-state");
+                    }
+                }
+                Ok(Err(_)) => {}
+            }
+        }
+        for p in [5usize, 48, 49, 50, 51] {
+            for v in [0u8, 1, 0xFF] {
+                if img[p] == v {
+                    continue;
+                }
+                let mut b = img.clone();
+                b[p] = v;
+                let r = load_only(&b);
+                out.op(format!("clx {} {}", p, v), show(&r));
+                out.count("damage:checkpoint:load-without-validate:field");
+                if r.is_err() {
+                    // the data-length field now announces more than the image holds: the same missing bounds check
+                    let dl = u32::from_le_bytes([b[48], b[49], b[50], b[51]]) as usize;
+                    let sig = if 52 + dl > b.len() { LOAD_PANIC_SIG } else { "C14:checkpoint:load-without-validate:panic:other" };
+                    out.violation(sig, "load() panicked on a checkpoint whose data-length field was changed", json!({"checkpoint": hex(&img), "pos": p, "val": v, "announced_data_length": dl, "image_length": b.len()}));
+                }
+            }
+        }
+        // payload byte replaced, both checksums recomputed: reaches bincode
+        let tries = if thorough { 120 } else { 24 };
+        for _ in 0..tries {
+            if n <= 68 {
+                break;
+            }
+            let p = 52 + rng.below((n - 68) as u64) as usize;
+            let v = match rng.below(4) { 0 => 0u8, 1 => 0xFF, 2 => img[p] ^ (1 << rng.below(8)), _ => rng.below(256) as u8 };
+            if v == img[p] {
+                continue;
+            }
+            let mut b = img.clone();
+            b[p] = v;
+            let dc = crc32fast::hash(&b[52..n - 16]);
+            b[n - 16..n - 12].copy_from_slice(&dc.to_le_bytes());
+            let fc = crc32fast::hash(&b[n - 16..n - 4]);
+            b[n - 4..].copy_from_slice(&fc.to_le_bytes());
+            let r = read_checkpoint(&b);
+            let imp = match &r {
+                Err(_) => "crash".to_string(),
+                Ok(Err(e)) => format!("err {}", chk_err(e)),
+                Ok(Ok(st)) => format!("ok {}", show_state_canon(st)),
+            };
+            out.count(&format!("damage:checkpoint:payload-byte+checksums-recomputed:{}", if imp.starts_with("ok") { "decoded" } else if imp == "crash" { "crash" } else { "rejected" }));
+            if r.is_err() {
+                out.violation("C14:checkpoint:panic:payload-byte+checksums-recomputed", "reading a checkpoint with a damaged payload (valid checksums) panicked", json!({"checkpoint": hex(&b)}));
+            }
+            out.op(format!("cxf {} {}", p, v), imp);
+        }
+    }
     out.case(&format!("chk {}", orig), state.len() >= 2);
     if show(&r) != "ok same" {
         out.violation("C14:roundtrip:checkpoint", "a state did not survive CheckpointWriter/CheckpointReader", json!({"state": orig}));
@@ -921,10 +1083,35 @@ pub fn run(a: &Args) {
     let mut out = Out::new(&a.out);
     let mut rng = Rng::new(a.seed);
     let thorough = a.tier == "thorough";
+    let load_checked = probe_load_checked();
     out.op(
-        format!("V {} {}", crate::cfg::CODE_WAL_FORMAT, crate::cfg::CODE_SEGMENT_STRICT_COUNT as u8),
-        format!("format {} strict {}", crate::cfg::CODE_WAL_FORMAT, crate::cfg::CODE_SEGMENT_STRICT_COUNT as u8),
+        format!("V {} {} {}", crate::cfg::CODE_WAL_FORMAT, crate::cfg::CODE_SEGMENT_STRICT_COUNT as u8, load_checked as u8),
+        format!("format {} strict {} load-checked {}", crate::cfg::CODE_WAL_FORMAT, crate::cfg::CODE_SEGMENT_STRICT_COUNT as u8, load_checked as u8),
     );
+    out.count(if load_checked { "variant:checkpoint-load:bounds-checked" } else { "variant:checkpoint-load:unchecked(panics on a short image)" });
+    crate::walcov::report(&mut out, "C14");
+    {
+        // on-disk constants: the crate's public ones and the private ones scanned from the source
+        // against the sizes the model's readers / writers use (a written image of known content)
+        use redis_sim::streaming::segment::{FOOTER_MAGIC, SEGMENT_MAGIC, SEGMENT_VERSION};
+        let c = format!("seg-magic {} foot-magic {} seg-version {} seg-header {} seg-footer {} chk-magic {} chk-version {} chk-header {}",
+            hex(&SEGMENT_MAGIC), hex(&FOOTER_MAGIC), SEGMENT_VERSION, crate::walcov::SRC_SEGMENT_HEADER_SIZE, crate::walcov::SRC_SEGMENT_FOOTER_SIZE,
+            hex(crate::walcov::SRC_CHECKPOINT_MAGIC.as_bytes()), crate::walcov::SRC_CHECKPOINT_VERSION, crate::walcov::SRC_CHECKPOINT_HEADER_SIZE);
+        out.op("FMT".into(), c);
+    }
+    // known finding (must reproduce until the fix lands): the checkpoint of the EMPTY state (76 bytes) cut
+    // right after its 48-byte header, inside the length field and inside the data section — open() accepts
+    // each, load() must not panic
+    {
+        let img = CheckpointWriter::new(Compression::None).write(HashMap::new(), 1, 1).unwrap();
+        for l in [48usize, 50, 52, 59] {
+            let r = load_only(&img[..l]);
+            out.count(&format!("corpus:load-without-validate:cut-{}:{}", l, match &r { Err(_) => "panic", Ok(Err(_)) => "error", Ok(Ok(_)) => "decoded" }));
+            if r.is_err() {
+                out.violation(LOAD_PANIC_SIG, &format!("CheckpointReader::open succeeded on the empty-state checkpoint cut to {} of {} bytes and load() panicked instead of returning an error", l, img.len()), json!({"checkpoint": hex(&img), "truncate_to": l}));
+            }
+        }
+    }
     bincode_fixed(&mut out);
     // fixed corpus first (both were defects, repaired by `fix:` commits: they must PASS now)
     {
